@@ -6,7 +6,10 @@ use core::marker::PhantomData;
 use core::mem::{ManuallyDrop, MaybeUninit};
 use core::ops::{Deref, DerefMut};
 use core::ptr::{self, addr_of_mut, NonNull};
+#[cfg(not(triomphe_verif))]
 use core::sync::atomic::AtomicUsize;
+#[cfg(triomphe_verif)]
+use crate::verif_atomic::AtomicUsize;
 
 #[cfg(feature = "serde")]
 use serde::{Deserialize, Serialize};
